@@ -37,7 +37,7 @@ pub struct ServerCase {
     /// held by the application, answer afterwards; 2: as 1, with a second pipelined request of
     /// the same connection still queued at the time of the drop; 3 / 4: nothing held, but a request
     /// that ends its connection (3: `Connection: close`, 4: HTTP/1.0) is queued, unreceived, at the
-    /// time of the drop
+    /// time of the drop; 5: twelve connections with one unreceived request each at the time of the drop
     pub drop_mode: u8,
     /// handlers wait on their requests: nobody answers before as many requests as there are
     /// application threads (or all of the burst) are held at the same time
@@ -68,7 +68,7 @@ pub fn server_strategy(max_burst: usize, for_c20: bool) -> BoxedStrategy<ServerC
         1usize..=2,
         1usize..=2,
         if for_c20 { prop_oneof![1 => Just(0u64), 3 => Just(6000u64), 1 => Just(5200u64)].boxed() } else { prop_oneof![3 => Just(0u64), 1 => Just(6000u64)].boxed() },
-        0u8..5,
+        0u8..6,
         tape_strategy(300),
         (proptest::collection::vec(prop_oneof![3 => Just(0u8), 1 => Just(1u8), 1 => Just(2u8), 1 => Just(3u8)], 1..3), prop_oneof![3 => Just(0usize), 1 => 1usize..4]),
     )
@@ -296,6 +296,9 @@ pub fn run_server_case(prop: &'static str, case: &ServerCase) -> Verdict {
                         if with_body && k == 0 {
                             wire.extend_from_slice(format!("POST /r{} HTTP/1.1\r\nHost: h\r\n{}Content-Length: 2000\r\n\r\n", id, if body_keep { "" } else { "Connection: close\r\n" }).as_bytes());
                             wire.extend_from_slice(&[b'b'; 2000]);
+                        } else if ci % 3 == 1 {
+                            // an HTTP/1.0 client that asks for a persistent connection in a token list
+                            wire.extend_from_slice(format!("GET /r{} HTTP/1.0\r\nHost: h\r\nConnection: TE, Keep-Alive\r\n\r\n", id).as_bytes());
                         } else {
                             wire.extend_from_slice(format!("GET /r{} HTTP/1.1\r\nHost: h\r\n\r\n", id).as_bytes());
                         }
@@ -428,7 +431,33 @@ pub fn run_server_case(prop: &'static str, case: &ServerCase) -> Verdict {
                 return;
             }
         };
-        if c.drop_mode >= 3 {
+        if c.drop_mode == 5 {
+            // a dozen connections with one request each, none of them received, and the server goes;
+            // then the clients go: nothing of the server stays behind
+            let mut cls = vec![];
+            for k in 0..12 {
+                if let Ok(cl) = listener.connect() {
+                    cl.send(format!("GET /r{} HTTP/1.1\r\nHost: h\r\n\r\n", 7000 + k).as_bytes());
+                    cls.push(cl);
+                }
+            }
+            let mut spins = 0;
+            while cls.iter().any(|cl| cl.consumed() == 0) && spins < 400 {
+                rt::thread::yield_now();
+                spins += 1;
+            }
+            rt::thread::sleep(Duration::from_millis(50));
+            ph.store(32, Ordering::SeqCst);
+            drop(server);
+            ph.store(33, Ordering::SeqCst);
+            if listener.connect().is_ok() {
+                viol("accepting-after-drop", "connect succeeded after the server had been dropped".into());
+            }
+            rt::thread::sleep(Duration::from_millis(100));
+            for cl in &cls {
+                cl.close_write();
+            }
+        } else if c.drop_mode >= 3 {
             // a request that ends its connection (Connection: close / HTTP/1.0 without keep-alive) has
             // been parsed and queued, nobody has received it, and the server goes: the connection's
             // worker must not stay behind
